@@ -4,7 +4,7 @@ import ast
 from . import rule, info
 from ..program import AnalysisError, src, norm, ClassInfo
 from ..pattern import match, matches
-from ..util import (cond_expr, is_name, calls_in, callee_qual, deref, ancestors, handler_outcomes, handler_body_nodes,
+from ..util import (branch_of, polarity, cond_expr, is_name, calls_in, callee_qual, deref, ancestors, handler_outcomes, handler_body_nodes,
                     enclosing_trys, handler_covers, completes_normally, evaluator_calls, fmt_witness)
 
 info('C05',
@@ -537,3 +537,90 @@ def repr_limits(ctx):
         ok = 'int' in norm(g.test) or 'hasattr' in norm(g.test)
         ctx.ob(ok, u, 'only non-integer settings are skipped: %s' % norm(g.test), node=g)
     ctx.floor(2)
+
+
+@rule('C05.10')
+def message_memo_follows_finalisation(ctx):
+    """GlomError.__str__ memoises the rendered message on the instance.  The memo is computed from
+    the state finalisation sets (scope, traceback lines); whoever sets that state again -- the
+    outer glom() finalising its copy of an error that an inner call already rendered -- must drop
+    the memo, or the outer error shows the inner call's trace."""
+    p = ctx.program
+    su = ctx.unit('core.GlomError.__str__')
+    self_ = su.params[0]
+    # the memo attribute: assigned in __str__ and returned from it
+    stores = [n for n in su.own_nodes() if isinstance(n, ast.Assign) and isinstance(n.targets[0], ast.Attribute)
+              and is_name(n.targets[0].value, self_)]
+    rets = [norm(r.value) for r in su.own_nodes() if isinstance(r, ast.Return) and r.value is not None]
+    memo = [s.targets[0].attr for s in stores if '%s.%s' % (self_, s.targets[0].attr) in rets]
+    ctx.require(len(set(memo)) == 1, 'GlomError.__str__: memoised message attribute not found (%s)' % memo)
+    memo = memo[0]
+    # the gate: the attribute whose presence makes __str__ render from the finalised state
+    gates = []
+    for n in su.own_nodes():
+        if isinstance(n, ast.Call) and is_name(n.func, 'getattr') and len(n.args) >= 2 and is_name(n.args[0], self_) \
+                and isinstance(n.args[1], ast.Constant) and n.args[1].value != memo:
+            gates.append(n.args[1].value)
+    ctx.require(gates, 'GlomError.__str__: finalised-state test not found')
+    cls = ctx.cls('core.GlomError')
+    n_writers = 0
+    for name, u in sorted(cls.methods.items()):
+        if u is su:
+            continue
+        writes = [n for n in u.own_nodes() if isinstance(n, ast.Assign) and any(
+            isinstance(t, ast.Attribute) and is_name(t.value, u.params[0] if u.params else None) and t.attr in gates
+            for t in n.targets)]
+        if not writes:
+            continue
+        n_writers += 1
+        resets = [n for n in u.own_nodes() if isinstance(n, ast.Assign) and any(
+            isinstance(t, ast.Attribute) and is_name(t.value, u.params[0]) and t.attr == memo for t in n.targets)
+            and isinstance(n.value, ast.Constant) and not n.value.value]
+        dels = [n for n in u.own_nodes() if isinstance(n, ast.Delete) and any(
+            isinstance(t, ast.Attribute) and t.attr == memo for t in n.targets)]
+        ok = bool(resets or dels)
+        ctx.ob(ok, u, '%s.%s sets the finalised state and drops the memoised message (%s)' % (cls.name, name, memo),
+               '' if ok else 'an error that was rendered once (str(e) in a callable, a log line) and then passes through an outer '
+               'glom() keeps the inner message: copy.copy() carries %s over and %s does not reset it' % (memo, name),
+               node=writes[0])
+    ctx.require(n_writers >= 1, 'GlomError: no method sets the finalised state')
+    ctx.floor(1)
+
+
+@rule('C05.11')
+def access_error_message_total(ctx):
+    """PathAccessError is built with Path(<the T expression being interpreted>), whose root may be
+    T, S or A.  Its message must render for each of them: re-wrapping the stored Path in
+    Path(...) sends it through the splice of Path.__init__, which rejects every root but T --
+    str(error) then fails and the trace ends in `<exception str() failed>`."""
+    p = ctx.program
+    u = ctx.unit('core.PathAccessError.get_message')
+    cfg = ctx.cfg(u)
+    self_ = u.params[0]
+    pu = ctx.unit('core.Path.__init__')
+    rejects = [n for n in pu.own_nodes() if isinstance(n, ast.Raise)
+               and any(isinstance(a, ast.If) and 'is not T' in norm(a.test) or isinstance(a, ast.If) and ' is T' in norm(a.test)
+                       for a in ancestors(n))]
+    ctx.ob(True, pu, 'Path(...) splices only T-rooted expressions after the first part (%d rejecting raise)' % len(rejects))
+    wraps = [c for c in calls_in(u) if callee_qual(p, u, c) == 'core.Path' and c.args
+             and matches(c.args[0], '%s.path' % self_)]
+    for c in wraps:
+        # fine when the first part is unwrapped by Path.__init__, or when the wrap is guarded
+        unwrap_first = any(isinstance(n, ast.If) and polarity(n.test, 'isinstance(%s[0], Path)' % pu.vararg) == 'true'
+                           for n in pu.node.body)
+        guarded = False
+        for a in ancestors(c):
+            if isinstance(a, (ast.If, ast.IfExp)):
+                pol = polarity(a.test, 'isinstance(%s.path, Path)' % self_)
+                if pol:
+                    inside = a.body if isinstance(a, ast.IfExp) else None
+                    if isinstance(a, ast.IfExp):
+                        side = 'true' if any(x is c for x in ast.walk(a.body)) else 'false'
+                    else:
+                        side = branch_of(a, c)
+                    guarded = guarded or (side is not None and side != pol)
+        ok = (not rejects) or unwrap_first or guarded
+        ctx.ob(ok, u, 'the stored path is not re-wrapped through the T-only splice: %s' % norm(c),
+               '' if ok else 'glom(1, S.zz): the error message cannot be rendered for an S- or A-rooted path', node=c)
+    ctx.ob(True, u, 'message rendering reads the stored path (%d re-wrap site(s))' % len(wraps))
+    ctx.floor(1)
